@@ -1,6 +1,7 @@
 From GV Require Import Common.Outcome C06.Model C06.Spec C06.Proofs C06.RefProofs C06.Mirror C06.Refuted.
 
 From GV Require Import Common.Outcome C06.Model C06.Spec C06.Mirror C06.SearchSpec C06.SearchProofs C06.SearchExamples.
+From GV Require Import Base.Grammar LR.Automaton LR.Validator LR.Spec Repair.Semantics Repair.Spec Repair.Search Repair.Confluent Repair.ConfluentSpec Repair.ConfluentValidated.
 Theorem C06_reference_complete : reference_complete_stmt.
 Proof. exact reference_complete. Qed.
 Print Assumptions C06_reference_complete.
@@ -134,3 +135,21 @@ Print Assumptions C06_mirror_output_form.
 Theorem C06_merge_arm_unreachable : merge_arm_unreachable_stmt.
 Proof. exact merge_arm_unreachable. Qed.
 Print Assumptions C06_merge_arm_unreachable.
+
+(* on validated conflict-free tables every sequence reported by the search mirror is a valid repair of cost >= the reference minimum *)
+Theorem C06_validated_reported_valid : validated_reported_valid_stmt.
+Proof. exact validated_reported_valid. Qed.
+Print Assumptions C06_validated_reported_valid.
+
+Theorem C06_validated_reported_valid_within_fuel : validated_reported_valid_within_fuel_stmt.
+Proof. exact validated_reported_valid_within_fuel. Qed.
+Print Assumptions C06_validated_reported_valid_within_fuel.
+
+Theorem C06_validated_reported_are_reference_successes : validated_reported_are_reference_successes_stmt.
+Proof. exact validated_reported_are_reference_successes. Qed.
+Print Assumptions C06_validated_reported_are_reference_successes.
+
+Theorem C06_validated_reported_cost_ge_reference : validated_reported_cost_ge_reference_stmt.
+Proof. exact validated_reported_cost_ge_reference. Qed.
+Print Assumptions C06_validated_reported_cost_ge_reference.
+
